@@ -10,3 +10,11 @@ Definition is_tup (x : lbl) : bool := match x with LTup _ => true | _ => false e
 Definition float_is_integer (x : lbl) : bool := match x with LInt _ => true | _ => false end.
 (* x in a numeric position, int(x) *)
 Definition num (x : lbl) : Z := match x with LInt z => z | _ => 0 end.
+
+(* optional arguments (None / given), as read by harness/translate_stats.py *)
+From Coq Require Import String.
+Definition given {A} (o : option A) : bool := match o with Some _ => true | None => false end.
+Definition zval (o : option Z) : Z := match o with Some z => z | None => 0 end.
+Definition sval (o : option string) : string := match o with Some x => x | None => EmptyString end.
+(* a condition summed as a number *)
+Definition pyb2z (b : bool) : Z := if b then 1 else 0.
